@@ -1,7 +1,8 @@
-//! Driver for the C15 engine: `typex_test [quick|thorough]`
+mod typex;
+// Driver for the C15 engine: `typex_test [quick|thorough]`
 
 fn main() {
     vh::par::install_panic_hook();
     let tier = std::env::args().nth(1).unwrap_or_else(|| "quick".to_string());
-    std::process::exit(vh::typex::run(&tier));
+    std::process::exit(typex::run(&tier));
 }
